@@ -261,6 +261,11 @@ func dirmodel(r *core.Run, cfg dmConfig) {
 	}
 	r.Knob("auto_refresh", auto)
 	e := newEnv(r, sched.Config{SwitchDen: 1 + src.Intn(3)}, cred)
+	if src.Bool(1, 3) {
+		// coarse file time stamps: everything written in one run has the same modification time
+		e.w.FS.MtimeGranularity = 1 << 20
+		r.Knob("coarse_mtime", true)
+	}
 	d := &dm{env: e, cfg: cfg, auto: auto, transientDen: transientDen, concurrent: concurrent}
 	// directory list
 	src.Begin("dirs")
